@@ -6,14 +6,17 @@ SetHeaderValue(NoMemCopy) / ByteScanner / parse / load / Part, itemBodyLiteral.W
 mailbox_fetch.go).  All theorems are for all byte strings, all section paths, all field lists, all
 offsets and all Content-Type oracles `ct` (the standard library's mime.ParseMediaType is a parameter).
 
+Repaired in /repo and followed here: #15 (fix 1ac3d52: the entry of an empty-valued field covers its
+colon and line break; `fields_exact` is now full strength) and #16/#16b (fix d71238c: ParseNumber rejects
+numbers above 2^32-1, so no parsed command reaches the overflow or a negative begin;
+`partial_no_panic_for_parsed`).  WithPartial itself is unchanged: `partial_overflow_*` /
+`partial_negative_begin_panics` remain as facts about the unexported function outside the parser's range.
+
 Full-strength statements that are FALSE of the current code are proved false on a witness
 (`*_witness`) and proved under a named hypothesis (`*_partial`):
-  #15  an empty-valued header field loses its `:` CRLF            fields_exact_witness / fields_exact_partial
-  #16  `begin+count` overflows in WithPartial                    partial_overflow_witness / partial_overflow_panics
-       (+ a negative begin, which the wire parser can produce)    partial_negative_begin_panics
-  new  BODY[HEADER]/BODY[TEXT] of a message whose own Content-Type is message/rfc822 are those of the
+  d24  BODY[HEADER]/BODY[TEXT] of a message whose own Content-Type is message/rfc822 are those of the
        embedded message                                           header_text_top_witness / header_text_top_partial
-  new  a numeric path below a part without children is ignored    part_leaf_ignores_path_witness
+  anomaly  a numeric path below a part without children is ignored    part_leaf_ignores_path_witness
 -/
 import GluonModel.Lemmas.Rfc822
 import GluonModel.Generated.Facts.Rfc822
@@ -285,8 +288,49 @@ theorem fetch_partial_is_slice (ct : Bytes → CT) (lit : Bytes) (sec : BodySect
   unfold fetchAttributeBodySection
   simp only [hb, bodyLiteralItem, withPartial_in_range b ho hn NoOverflow, and_self]
 
-/-- EXPECTED FALSE without the hypothesis (#16): `BODY[]<1.9223372036854775807>` on a three-byte
-    literal: `begin+count` wraps to a negative number, the slice expression panics. -/
+/-- For every partial a parsed command can carry — offset and count are read by ParseNumber /
+    ParseNZNumber, which accept at most 2^32-1 (regenerated facts, `parsed_numbers_bounded`), the count is
+    at least 1 — `WithPartial` does not panic and leaves exactly `drop begin |> take count`, for every
+    literal. -/
+theorem partial_no_panic_for_parsed (d : Bytes) (b c : Int) (hb0 : 0 ≤ b) (hb : b ≤ 4294967295)
+    (hc1 : 1 ≤ c) (hc : c ≤ 4294967295) :
+    withPartial d b c = some ((d.drop b.toNat).take c.toNat) :=
+  withPartial_in_range d hb0 (by omega) (by unfold maxInt64; omega)
+
+/-- … and the whole FETCH item for such a partial is rendered without panic. -/
+theorem fetch_no_panic_for_parsed (ct : Bytes → CT) (lit : Bytes) (sec : BodySection) (b c : Int)
+    (hb0 : 0 ≤ b) (hb : b ≤ 4294967295) (hc1 : 1 ≤ c) (hc : c ≤ 4294967295) :
+    fetchAttributeBodySection ct lit sec (some (b, c)) ≠ .error .panic ∧
+    fetchAttributeBodySection ct lit sec (some (b, c)) ≠ .error (.part .panic) ∧
+    fetchAttributeBodySection ct lit sec none ≠ .error .panic ∧
+    fetchAttributeBodySection ct lit sec none ≠ .error (.part .panic) := by
+  have key : ∀ p, (p = none ∨ p = some (b, c)) →
+      fetchAttributeBodySection ct lit sec p ≠ .error .panic ∧
+      fetchAttributeBodySection ct lit sec p ≠ .error (.part .panic) := by
+    intro p hp
+    have hne : ¬ ∃ e, fetchAttributeBodySection ct lit sec p = .error e ∧ (e matches .panic | .part .panic) := by
+      intro hex
+      obtain ⟨o, n, bb, name, hpe, _, hw⟩ := fetch_panics_only_in_partial ct lit sec p hex
+      rcases hp with hp | hp
+      · rw [hp] at hpe; cases hpe
+      · rw [hp] at hpe
+        cases hpe
+        rw [partial_no_panic_for_parsed bb b c hb0 hb hc1 hc] at hw
+        cases hw
+    exact ⟨fun h => hne ⟨_, h, rfl⟩, fun h => hne ⟨_, h, rfl⟩⟩
+  exact ⟨(key _ (Or.inr rfl)).1, (key _ (Or.inr rfl)).2, (key _ (Or.inl rfl)).1, (key _ (Or.inl rfl)).2⟩
+
+/-- The source says so (regenerated): ParseNumber leaves with an error as soon as the value exceeds
+    math.MaxUint32; `<offset.count>` is read with ParseNumber and ParseNZNumber; ParseNZNumber is
+    ParseNumber plus the rejection of 0. -/
+theorem parsed_numbers_bounded :
+    Facts.parseNumberMax = some 4294967295 ∧ Facts.partialOffsetParser = "ParseNumber" ∧
+    Facts.partialCountParser = "ParseNZNumber" ∧ Facts.nzNumberUsesParseNumber = true ∧
+    Facts.nzNumberRejectsZero = true := by decide
+
+/-- Fact about the unexported `WithPartial` outside the parser's range (was #16, repaired at the parser):
+    `WithPartial(1, 9223372036854775807)` on a three-byte literal: `begin+count` wraps to a negative
+    number, the slice expression panics. -/
 theorem partial_overflow_witness : withPartial [1, 2, 3] 1 9223372036854775807 = none := by decide
 
 /-- … in general: every offset inside the literal together with a count that overflows the sum panics. -/
@@ -294,8 +338,8 @@ theorem partial_overflow_panics (d : Bytes) (o n : Int) (ho : 0 ≤ o) (hlt : o 
     (ho' : o ≤ maxInt64) (hn : n ≤ maxInt64) (Overflow : maxInt64 < o + n) : withPartial d o n = none :=
   withPartial_overflow d ho hlt ho' hn Overflow
 
-/-- A negative begin (the wire parser's `ParseNumber` wraps silently, so `<9223372036854775808.1>`
-    arrives as a negative offset) panics for every literal and every count. -/
+/-- Likewise outside the parser's range (was #16b): a negative begin panics for every literal and every
+    count. -/
 theorem partial_negative_begin_panics (d : Bytes) (o n : Int) (ho : o < 0) (homin : minInt64 ≤ o)
     (hn0 : 0 ≤ n) (hn : n ≤ maxInt64) : withPartial d o n = none :=
   withPartial_negative d ho homin hn0 hn
@@ -318,28 +362,24 @@ theorem fields_partition (h : Bytes) (es : List Entry) (want : List Bytes) :
    fun e _ hs => ⟨selects_blank false want h e hs, selects_blank true want h e hs⟩,
    fun e _ hk hs => ⟨selects_keyless false want h e hk hs, selects_keyless true want h e hk hs⟩⟩
 
-/-- EXPECTED FALSE (#15): "each field occurs with its exact bytes".  For `X-Empty: CRLF Subject: s CRLF CRLF`
-    the entry of the empty-valued field ends at its key, so `HEADER.FIELDS (X-Empty Subject)` is
-    `X-EmptySubject: s CRLF CRLF` and the entries do not add up to the header. -/
-theorem fields_exact_witness :
-    let h : Bytes := [88, 45, 69, 109, 112, 116, 121, 58, 13, 10, 83, 117, 98, 106, 101, 99, 116, 58, 32, 115, 13,
-      10, 13, 10]
-    ∃ es, parseEntries h = .ok es ∧
-      fields h es [[120, 45, 101, 109, 112, 116, 121], [115, 117, 98, 106, 101, 99, 116]] =
-        [88, 45, 69, 109, 112, 116, 121, 83, 117, 98, 106, 101, 99, 116, 58, 32, 115, 13, 10, 13, 10] ∧
-      es.flatMap (Entry.all h) ≠ h ∧ es.any Entry.emptyValued = true :=
-  ⟨[⟨0, 7, 7, 7⟩, ⟨10, 17, 19, 22⟩, ⟨22, 22, 22, 24⟩], by decide, by decide, by decide, by decide⟩
-
-/-- … and holds under the named hypothesis `NoEmptyValued` (no entry of the shape the "empty header
-    field" branch produces): then the entries tile the header — each begins where the previous one ended,
-    the first at 0, the last ends at the end — so the entries' bytes concatenate to the header exactly and
-    every byte of the header belongs to exactly one entry; with `fields_partition`, HEADER.FIELDS and
-    HEADER.FIELDS.NOT split the fields between them without loss or duplication. -/
-theorem fields_exact_partial (h : Bytes) (es : List Entry) (hp : parseEntries h = .ok es)
-    (NoEmptyValued : ∀ e ∈ es, e.emptyValued = false) :
+/-- Full strength (since fix 1ac3d52; was #15): for every header `NewHeader` accepts, the entries tile
+    the header — each begins where the previous one ended, the first at 0, the last ends at the end — so the
+    entries' bytes concatenate to the header exactly and every byte of the header belongs to exactly one
+    entry.  With `fields_partition`: HEADER.FIELDS and HEADER.FIELDS.NOT split the header's fields between
+    them without loss or duplication, each field with its exact bytes. -/
+theorem fields_exact (h : Bytes) (es : List Entry) (hp : parseEntries h = .ok es) :
     Tiling h.length 0 es ∧ es.flatMap (Entry.all h) = h := by
-  have t := parseEntries_tiling hp NoEmptyValued
+  have t := parseEntries_tiling hp
   exact ⟨t, by simpa using tiling_flatMap h es 0 t⟩
+
+/-- … in particular asking for all keys gives back the whole header: if every keyed entry's key is
+    requested, `Fields` is the header minus the lines without colon. -/
+theorem fields_all_is_header (h : Bytes) (es : List Entry) (want : List Bytes) (hp : parseEntries h = .ok es)
+    (hall : ∀ e ∈ es, selects false want h e = true) : fields h es want = h := by
+  have hf : es.filter (selects false want h) = es := List.filter_eq_self.mpr hall
+  unfold fields fieldsOf
+  rw [hf]
+  exact (fields_exact h es hp).2
 
 /-! ### literal framing -/
 
@@ -381,14 +421,28 @@ example : withPartial [97, 98, 99, 100] 1 2 = some [98, 99] ∧ withPartial [97,
     bodyLiteralItem [84, 69, 88, 84] [97, 98, 99, 100] (some (1, 2)) =
       some [66, 79, 68, 89, 91, 84, 69, 88, 84, 93, 60, 49, 62, 32, 123, 50, 125, 13, 10, 98, 99] := by decide
 
-/-- fields: a header without empty-valued field satisfies `NoEmptyValued`, is tiled, and
-    `Fields`/`FieldsNot` split it -/
+/-- fields: a folded header; `Fields`/`FieldsNot` split it -/
 example :
     let h : Bytes := [65, 58, 32, 98, 13, 10, 66, 58, 13, 10, 32, 99, 13, 10, 13, 10]   -- "A: b\r\nB:\r\n c\r\n\r\n"
     parseEntries h = .ok [⟨0, 1, 3, 6⟩, ⟨6, 7, 11, 14⟩, ⟨14, 14, 14, 16⟩] ∧
-    ([⟨0, 1, 3, 6⟩, ⟨6, 7, 11, 14⟩, ⟨14, 14, 14, 16⟩] : List Entry).all (fun e => !e.emptyValued) = true ∧
     fields h [⟨0, 1, 3, 6⟩, ⟨6, 7, 11, 14⟩, ⟨14, 14, 14, 16⟩] [[98]] = [66, 58, 13, 10, 32, 99, 13, 10, 13, 10] ∧
     fieldsNot h [⟨0, 1, 3, 6⟩, ⟨6, 7, 11, 14⟩, ⟨14, 14, 14, 16⟩] [[98]] = [65, 58, 32, 98, 13, 10, 13, 10] := by decide
+
+/-- regression of #15: `X-Empty: CRLF Subject: s CRLF CRLF`; `HEADER.FIELDS (X-Empty Subject)` is now the
+    exact header (it was `X-EmptySubject: s CRLF CRLF`) -/
+example :
+    let h : Bytes := [88, 45, 69, 109, 112, 116, 121, 58, 13, 10, 83, 117, 98, 106, 101, 99, 116, 58, 32, 115, 13,
+      10, 13, 10]
+    parseEntries h = .ok [⟨0, 7, 10, 10⟩, ⟨10, 17, 19, 22⟩, ⟨22, 22, 22, 24⟩] ∧
+    fields h [⟨0, 7, 10, 10⟩, ⟨10, 17, 19, 22⟩, ⟨22, 22, 22, 24⟩]
+      [[120, 45, 101, 109, 112, 116, 121], [115, 117, 98, 106, 101, 99, 116]] = h ∧
+    fieldsNot h [⟨0, 7, 10, 10⟩, ⟨10, 17, 19, 22⟩, ⟨22, 22, 22, 24⟩] [[115, 117, 98, 106, 101, 99, 116]] =
+      [88, 45, 69, 109, 112, 116, 121, 58, 13, 10, 13, 10] := by decide
+
+/-- parsed partials: the extreme values of the parser's range -/
+example : withPartial [97, 98, 99, 100] 4294967295 4294967295 = some [] ∧
+    withPartial [97, 98, 99, 100] 1 4294967295 = some [98, 99, 100] ∧
+    withPartial [97, 98, 99, 100] 0 1 = some [97] := by decide
 
 /-- framing: `{3}\r\nabc` -/
 example : frame [97, 98, 99] = [123, 51, 125, 13, 10, 97, 98, 99] ∧
